@@ -87,7 +87,7 @@ class LinearInterpolator(NNBase):
         """
         if len(prediction_points.shape) == 1:
             # Reshape vector to n x 1 array
-            prediction_points.shape = (1, prediction_points.shape[0])
+            prediction_points = prediction_points.reshape(1, -1)
 
         normalized_pts = (prediction_points - self._tpm) / self._tpr
 
@@ -104,13 +104,12 @@ class LinearInterpolator(NNBase):
         predictions = np.einsum('ij,ijk->ik', normalized_pts,
                                 normal[:, :self._indep_dims, :]) - pc
 
-        # Check to see if there are any collinear points and replace them
-        n0 = np.where(normal[:, -1, :] == 0)
-        predictions[n0, :] = self._tv[nloc[0, n0], :]
-
-        # Finish computation for the good normals
-        n = np.where(normal[:, -1, :] != 0)
-        predictions[n] /= -normal[:, -1, :][n]
+        # The normal is a unit vector. If its last component vanishes (up to rounding) the
+        # neighbors are collinear and the plane is vertical: use the value of the closest one.
+        nz = normal[:, -1, :]
+        collinear = np.abs(nz) <= 1e-10
+        predictions = np.where(collinear, self._tv[nloc[:, 0], :],
+                               predictions / -np.where(collinear, 1., nz))
 
         # Rescale to original units
         predictions = (predictions * self._tvr) + self._tvm
@@ -135,7 +134,7 @@ class LinearInterpolator(NNBase):
         """
         if len(prediciton_points.shape) == 1:
             # Reshape vector to n x 1 array
-            prediciton_points.shape = (1, prediciton_points.shape[0])
+            prediciton_points = prediciton_points.reshape(1, -1)
 
         normPredPts = (prediciton_points - self._tpm) / self._tpr
         nppts = normPredPts.shape[0]
@@ -146,15 +145,16 @@ class LinearInterpolator(NNBase):
 
         # Find the neighbors
         if self._pt_cache is not None and \
-                np.allclose(self._pt_cache[0], normPredPts):
+                np.array_equal(self._pt_cache[0], normPredPts):
             ndist, nloc = self._pt_cache[1:]
         else:
             ndist, nloc = self._KData.query(normPredPts.real, dims)
 
         normal, pc = self._find_hyperplane(nloc)
-        if np.any(normal[:, -1, :]) == 0:
-            return gradient
-        gradient[:] = (-normal[:, :-1, :] / normal[:, -1, :]).squeeze().T
+        nz = normal[:, -1:, :]
+        collinear = np.abs(nz) <= 1e-10
+        slope = np.where(collinear, 0., -normal[:, :-1, :] / np.where(collinear, 1., nz))
+        gradient[:] = np.transpose(slope, (0, 2, 1))
 
         grad = gradient * (self._tvr[:, np.newaxis] / self._tpr)
 
